@@ -63,7 +63,7 @@ where
 
     let half = N::from_f64(0.5).unwrap();
 
-    let mut half_interval = (left - right) * half;
+    let mut half_interval = (right - left) * half;
     let mut middle = left + half_interval;
 
     while n <= n_max {
